@@ -259,8 +259,11 @@ func (gen *generator) addGlobalEntitiesToModule() {
 // in numeric order.
 func (gen *generator) addAttrGroupDefsToModule() {
 	// 8d. Add IR attribute group definitions to the IR module in numeric order.
-	attrGroupIDs := make([]int64, 0, len(gen.old.attrGroupDefs))
-	for id := range gen.old.attrGroupDefs {
+	//
+	// Note: the IR index also holds the (empty) attribute groups created for
+	// attribute group IDs which are used but not defined by the module.
+	attrGroupIDs := make([]int64, 0, len(gen.new.attrGroupDefs))
+	for id := range gen.new.attrGroupDefs {
 		attrGroupIDs = append(attrGroupIDs, id)
 	}
 	less := func(i, j int) bool {
